@@ -541,7 +541,7 @@ def forward_signatures(func, calls, args, kwargs, sig):
             fwdargsvals.extend(rn(fwdvarargs))
             fwdkwargsvals = dict((n, rn(arg)) for n, arg in fwdkwargs.items())
             fwdkwargsvals.update(rn(fwdvarkwargs))
-        except (TypeError, ValueError):
+        except Exception:
             # what the names denote right now cannot be unpacked
             raise UnknownForwards
         using_partial = wrapped_func is functools.partial
